@@ -825,12 +825,16 @@ pub fn placement(args: &[String], out: &mut Sink) {
         }
         {
             let mut rr = r.clone();
-            let nsteps = rr.range(nops / 2, nops);
+            let mut nsteps = rr.range(nops / 2, nops);
             let mut e = Engine::new(rr, &mut scratch, cfg.clone(), dir.clone(), big);
             if scale > 1 {
                 e.scale = scale;
                 let extra = gen_keyset(&mut e.rng, 40 * scale);
                 e.pool.extend(extra);
+            }
+            e.script = crate::db::script_for(&focus);
+            if let Some(s) = &e.script {
+                nsteps = s.len();
             }
             for _ in 0..nsteps {
                 e.step(&weights);
